@@ -214,28 +214,25 @@ example : firstStart [(4681, 200), (585, 100)] 4681 = 100 := by
   rw [firstStartLoop]; simp [lookup]
   rw [firstStartLoop]; simp [lookup]
 
-/-! fai. The full-strength statement
-```
-theorem fai_roundtrip (ix : List FaiRecord) (h : ∀ r ∈ ix, r.WF) : readFai (encFai ix) = .ok ix
-```
-(names: ANY bytes but TAB and LF — the name is a `BStr`, filled by the FASTA indexer from the
-definition line as bytes and written as bytes) is FALSE for the code as it is: both fai readers
-push the whole line through `str` first (known finding F34). Witness below. What holds is the
-statement with the extra hypothesis that every name is well-formed UTF-8. -/
-
-/-- fai: every index whose names are free of TAB and LF AND are valid UTF-8 reads back equal. -/
-theorem fai_roundtrip_partial (ix : List FaiRecord)
-    (h : ∀ r ∈ ix, r.WF ∧ validUtf8 r.name = true) : readFai (encFai ix) = .ok ix :=
+/-- fai: every index whose names are free of TAB and LF — ANY other bytes: the name is a `BStr`,
+filled by the FASTA indexer from the definition line as bytes and written as bytes — reads back
+equal. (Until fix dfcc1c6 both fai readers pushed the whole line through `str` first and this held
+only for UTF-8 names: known finding F34, now repaired.) -/
+theorem fai_roundtrip (ix : List FaiRecord) (h : ∀ r ∈ ix, r.WF) : readFai (encFai ix) = .ok ix :=
   readFai_rt ix h
 
-example : FaiRecord.WF ⟨[115, 113, 195, 169, 32, 13], 10946, 4, 80, 81⟩ ∧
-    validUtf8 [115, 113, 195, 169, 32, 13] = true := by
-  refine ⟨by simp [FaiRecord.WF, TAB, LF], by decide⟩
+/-- the former partial statement, kept as a corollary -/
+theorem fai_roundtrip_partial (ix : List FaiRecord)
+    (h : ∀ r ∈ ix, r.WF ∧ validUtf8 r.name = true) : readFai (encFai ix) = .ok ix :=
+  fai_roundtrip ix (fun r hr => (h r hr).1)
 
-/-- negation witness for the full statement: the name `sq\xff` (what the FASTA indexer makes of
-`>sq\xff`) is representable, the writer emits it, the reader answers `InvalidData` -/
+example : FaiRecord.WF ⟨[115, 113, 195, 169, 32, 13], 10946, 4, 80, 81⟩ := by
+  simp [FaiRecord.WF, TAB, LF]
+
+/-- the former negation witness now reads back: the name `sq\xff` (what the FASTA indexer makes of
+`>sq\xff`) -/
 example : FaiRecord.WF ⟨[0x73, 0x71, 0xff], 4, 5, 4, 5⟩ ∧
-    readFai (encFai [⟨[0x73, 0x71, 0xff], 4, 5, 4, 5⟩]) = .error .invalid := by
+    readFai (encFai [⟨[0x73, 0x71, 0xff], 4, 5, 4, 5⟩]) = .ok [⟨[0x73, 0x71, 0xff], 4, 5, 4, 5⟩] := by
   refine ⟨by simp [FaiRecord.WF, TAB, LF], by rfl⟩
 
 /-- crai (the text inside the gzip member): every index reads back equal; an unmapped slice is
